@@ -8,7 +8,12 @@
 (iii) c09.text_minimum           Text / str / objects cast via __rich__ to Text or str, without tabs:
       c09.text_maximum           minimum == widest word, maximum == widest line (both capped by the available width, as
       c09.text_no_wrap_at_maximum (i) demands), and rendering at the widest-line width yields exactly the input lines
+                                 (the minimum clause is not evaluated for a text without any word -- "its widest word"
+                                 is undefined there, and tests/test_text.py pins (4, 4) for four blanks)
       c09.raised                 measuring or rendering raised / timed out (no measurement to judge)
+
+``input_key`` is ``<input class>:<hash of tree+width>`` with input class one of ``leading>=2``, ``ratio=0``, ``text``,
+``blank-text``, ``cast-to-str`` (or no prefix for the main pool), so a known finding can be matched by its prefix.
 
 Trees are those of C01 plus two wrappers: ``NoMeasure`` (a renderable without ``__rich_measure__``) and ``Cast`` (an object
 that is renderable only through ``__rich__``).  Line widths use ``vf.rtc.specnative.cells``.
